@@ -42,7 +42,11 @@ class Stream:
         sp = _sp()
         self.sp = sp
         self.ids = list(dict.fromkeys(params["ids"]))  # 13-bit raw ids, unique, ordered
-        self.id_objs = [sp.PacketId.from_raw(r) for r in self.ids]
+        # registered ids are built the way callers do: from the raw word, or from the three fields with the flag as bool or as the 0/1 bit
+        self.id_objs = [
+            sp.PacketId.from_raw(r) if i % 3 == 0 else sp.PacketId(sp.PacketType((r >> 12) & 1) if i % 3 == 1 else (r >> 12) & 1, bool((r >> 11) & 1) if i % 3 == 1 else (r >> 11) & 1, r & 0x7FF)
+            for i, r in enumerate(self.ids)
+        ]
         idset = set(self.ids)
         pk_bytes = []
         for p in params["packets"]:
@@ -300,8 +304,16 @@ MAX_SIZE_STREAM = {"ids": [0x0805], "packets": [{"id": 0, "ver": 0, "flags": 3, 
 MAX_SIZE_CUTS = (1, 5, 6, 7, 4096, 65535, 65536, 65541, 65542, 65543, 65548)
 
 
+MANY_PACKETS_STREAM = {"ids": [0x0801, 0x1802], "packets": [{"id": i % 2, "ver": 0, "flags": 3, "seq": i % 16384, "data": f"{i % 256:02x}"} for i in range(3000)], "garbage": []}
+
+
 def enum_fragmentations(tier, shard, nshards, rng):
     idx = 0
+    # thousands of small packets back to back, handed to the parser in one piece / in a few pieces (one radio frame, one file read)
+    for cuts in ([], [7], [10500], [3, 21000 - 4], list(range(4096, 21000, 4096))):
+        idx += 1
+        if idx % nshards == shard:
+            yield {"stream": MANY_PACKETS_STREAM, "cuts": cuts, "parse": [], "parse_always": True}
     # a packet of the maximum size a space packet can have (length field 0xFFFF, 65542 octets) followed by a small one: 0, 1 and 2 cuts from a list
     for r in (0, 1, 2):
         for cuts in itertools.combinations(MAX_SIZE_CUTS, r):
